@@ -130,9 +130,9 @@ VARIANTS = [("prev=%s,extra=%d,cache=%s" % (p, x, c), (p, x, c))
          thorough_variants=[("prev=%s,extra=%d,cache=%s" % (p, x, c), (p, x, c))
                             for (p, x, c) in [(2, 1, False), (3, 0, False), (3, 0, True)]] +
                            [("prev=%s,extra=0,cache=%s,listed<=3" % (p, c), (p, 0, c, 3))
-                            for (p, c) in [("none", False), (1, False), (1, True)]],
+                            for (p, c) in [("none", False), (1, False)]],
          thorough_bound="previous segment with <= 3 objects, or 2 objects plus an older object known only to the "
-                        "reader; <= 3 objects listed in this segment's metadata (previous <= 1)",
+                        "reader; <= 3 objects listed in this segment's metadata (previous <= 1, index cache not in use)",
          bound="previous segment absent or with <= 2 objects (<= 1 when an older object known only to the "
                "reader is present), "
                "<= 2 objects listed in this segment's metadata; ToC flags, byte order, paths, headers, index "
